@@ -1511,10 +1511,20 @@ func (e *Engine) opUnlock() {
 				// the shim's own view: everything it listed before the lock and that is still within its validity
 				// window is listed again, with the same comment, and nothing else is
 				e.lastListed = nil
+				heldBefore := map[string]bool{}
+				for b := range e.m {
+					heldBefore[b] = true
+				}
 				e.opList()
 				now := time.Now().Unix()
 				if e.lastListed != nil && len(e.Disc) == 0 {
 					for blob, comment := range e.preShim {
+						if mc, still := e.m[blob]; heldBefore[blob] && (!still || mc.maybe) {
+							// an in-memory hardware certificate that the listing just made was entitled to drop (its backing
+							// key left the underlying agent before the lock, e.g. with a lapsed certificate purged by the
+							// listing before the lock): that is the filter's doing (C07), judged by the model in opList
+							continue
+						}
 						if pk, perr := ssh.ParsePublicKey([]byte(blob)); perr == nil {
 							if c, ok := pk.(*ssh.Certificate); ok && timeClass(c, now-2, now+2) != 1 {
 								continue
